@@ -174,6 +174,7 @@ def run(rep, thorough):
     rowwise_probe(rep)
     like_probe(rep, thorough)
     clear_null_probe(rep)
+    cast_to_string_probe(rep)
     nq += month_days(rep)
     nq += date_add_logic(rep, thorough)
     date_interval_probe(rep)
@@ -680,3 +681,46 @@ def clear_null_probe(rep):
     what = 'the raw bit under a NULL slot of a boolean result is not cleared (filters and join conditions read it): %s' % line[:300]
     out = rep.counterexample('contract:clear_null', what[:500], {'native': line}, True)
     rep.obligation(out == 'known')
+
+
+def cast_to_string_probe(rep):
+    """Concrete probe (formatting is std::fmt / chrono, outside the interpreter): CAST(x AS VARCHAR) for every source type
+    over a batch with NULLs between values -- a NULL stays NULL, a value becomes the text the engine prints for it, row by
+    row whatever the neighbours are."""
+    cols = {'smallint': ['-32768', '0', '7'], 'int': ['-2147483648', '0', '42'], 'bigint': ['9223372036854775807', '0', '-5'], 'boolean': ['true', 'false', 'true'],
+            'double': ["cast('1.5' as double)", "cast('-0.25' as double)", "cast('1e300' as double)"], 'decimal(10,2)': ['1.25', '0.00', '-3.50'],
+            'date': ["date '2000-02-29'", "date '1970-01-01'", "date '9999-12-31'"], 'varchar': ["'a'", "''", "'b c'"]}
+    stmts, qs = [], []
+    for i, (ty, vals) in enumerate(cols.items()):
+        t = 'c%d' % i
+        stmts.append('create table %s(k int not null, v %s)' % (t, ty))
+        rows = ['(0, NULL)', '(1, %s)' % vals[0], '(2, NULL)', '(3, %s)' % vals[1], '(4, %s)' % vals[2], '(5, NULL)']
+        stmts.append('insert into %s values %s' % (t, ', '.join(rows)))
+        qs.append((ty, 'select k, v, cast(v as varchar), cast(v as varchar) is null from %s order by k' % t))
+    out, rc, err = rl('sql', {'engine': 'mem', 'stmts': stmts + [q for _, q in qs]}, timeout=120)
+    res = {o['sql']: o for o in out if 'sql' in o}
+    rep.cov['programs'] += 1
+    bad = []
+    for ty, q in qs:
+        o = res.get(q)
+        if o is None or not o.get('ok') or o.get('panicked'):
+            bad.append((ty, 'the cast fails: %s' % ((o or {}).get('err') or 'panic / not run: ' + err[-120:])))
+            continue
+        for k, v, sv, isnull in o['rows']:
+            if v is None:
+                if sv is not None or isnull != 'true':
+                    bad.append((ty, 'row %s: NULL casts to %r (is null: %s)' % (k, sv, isnull)))
+            elif sv != v or isnull != 'false':
+                bad.append((ty, 'row %s: %r casts to %r (is null: %s)' % (k, v, sv, isnull)))
+    if not bad:
+        rep.obligation(True)
+        rep.sample({'kernel': 'CAST(x AS VARCHAR) over %d source types' % len(cols), 'obligation': 'cast-to-string probe (concrete)', 'verdict': 'NULL stays NULL, values become their printed text'}, cap=1)
+        return
+    seen = set()
+    for ty, what in bad:
+        key = 'probe:cast-to-string:%s:%s' % (ty.split('(')[0], 'null' if 'NULL casts' in what else 'value')
+        if key in seen:
+            continue
+        seen.add(key)
+        outc = rep.counterexample(key, ('CAST(%s AS VARCHAR): ' % ty + what)[:400], {'stmts': stmts[:2 * len(cols)], 'detail': what}, True)
+        rep.obligation(outc == 'known')
